@@ -104,10 +104,100 @@ fn unif_word(b: usize, nb: usize) -> u64 {
     ((((b as u128) << 64) + (1u128 << 62)) / nb as u128) as u64
 }
 
-fn slot0(c: &Config, script: Vec<u64>) -> Option<Option<MOp>> {
+fn slot_at(c: &Config, script: Vec<u64>, p: usize) -> Option<Option<MOp>> {
     let mut rng = TapeRng::scripted(script, 7);
     rng.logging = false;
-    run_update(c, &mut rng).map(|(sl, _, _)| sl[0].clone())
+    run_update(c, &mut rng).map(|(sl, _, _)| sl[p].clone())
+}
+
+fn slot0(c: &Config, script: Vec<u64>) -> Option<Option<MOp>> {
+    slot_at(c, script, 0)
+}
+
+/// Second-slot oracle (model independent): slot 0 holds a diagonal op that the scripted words remove,
+/// so the count current at slot 1 is n0 - 1; measure insertion (slot 1 empty) and removal (slot 1 = op b)
+/// there and compare their ratio with beta w / (L - n_live).
+pub fn live_count_oracle(c: &Config) -> Vec<serde_json::Value> {
+    let two64 = 18446744073709551616.0f64;
+    let mut fails = vec![];
+    let nb = c.h.nbonds();
+    if c.l < 2 || c.sl0.len() != c.l {
+        return fails;
+    }
+    let o0 = match &c.sl0[0] {
+        Some(o) if o.is_diag() => o.clone(),
+        _ => return fails,
+    };
+    if c.sl0[1].is_some() {
+        return fails;
+    }
+    let n0 = c.sl0.iter().flatten().count();
+    // words that make slot 0's removal certain, from the documented acceptance rule
+    let w0 = c.h.weight(o0.bond, &o0.ins, &o0.ins);
+    let prefix: Vec<u64> = if c.hb {
+        vec![0]
+    } else if ((c.l - n0 + 1) as f64) >= c.beta * nb as f64 * w0 {
+        vec![]
+    } else {
+        vec![0]
+    };
+    // sanity: the prefix really empties slot 0
+    let mut chk = prefix.clone();
+    chk.extend_from_slice(&[u64::MAX, u64::MAX, u64::MAX]);
+    if !matches!(slot_at(c, chk, 0), Some(None)) {
+        return fails;
+    }
+    let n_live = n0 - 1;
+    for b in 0..nb {
+        let sub: Vec<bool> = c.h.vars[b].iter().map(|v| c.st0[*v]).collect();
+        let w = c.h.weight(b, &sub, &sub);
+        if w <= 0.0 {
+            continue;
+        }
+        let with = |tail: Vec<u64>| {
+            let mut s = prefix.clone();
+            s.extend(tail);
+            s
+        };
+        let p_ins = if !c.hb {
+            let t = bisect(|v| matches!(slot_at(c, with(vec![unif_word(b, nb), v]), 1), Some(Some(_))));
+            (t as f64 / two64) / nb as f64
+        } else {
+            let cw = match choose_word(&c.h, b) {
+                Some(x) => x,
+                None => continue,
+            };
+            let t_ins = bisect(|v| matches!(slot_at(c, with(vec![v, 0, cw]), 1), Some(Some(_))));
+            let t_acc = bisect(|v| matches!(slot_at(c, with(vec![0, v, cw]), 1), Some(Some(_))));
+            // P(choose b) = maxweight_b / sum of maxweights, from the table itself
+            let mw: Vec<f64> = (0..nb).map(|i| c.h.diag[i].iter().cloned().fold(0.0, f64::max)).collect();
+            (t_ins as f64 / two64) * (mw[b] / mw.iter().sum::<f64>()) * (t_acc as f64 / two64)
+        };
+        let mut c2 = Config { h: c.h.clone(), nvars: c.nvars, l: c.l, beta: c.beta, st0: c.st0.clone(), sl0: c.sl0.clone(), hb: c.hb };
+        c2.sl0[1] = Some(MOp { vars: c.h.vars[b].clone(), bond: b, ins: sub.clone(), outs: sub.clone(), constant: c.h.consts[b] });
+        // removal of slot 0 in c2: count is n0 + 1 there
+        let prefix2: Vec<u64> = if c.hb {
+            vec![0]
+        } else if ((c.l - (n0 + 1) + 1) as f64) >= c.beta * nb as f64 * w0 {
+            vec![]
+        } else {
+            vec![0]
+        };
+        let t_rem = bisect(|v| {
+            let mut s = prefix2.clone();
+            s.push(v);
+            matches!(slot_at(&c2, s, 1), Some(None))
+        });
+        let p_rem = t_rem as f64 / two64;
+        let want = c.beta * w / (c.l - n_live) as f64;
+        let got = p_ins / p_rem;
+        if p_rem <= 0.0 || (got - want).abs() > 1e-9 * (1.0 + want) {
+            fails.push(json!({"what": format!("at the second slot, after slot 0 was emptied in the same sweep: P_ins/P_rem = {} but beta*w/(L-n) = {} with the live count n = {}", got, want, n_live),
+                "variant": if c.hb {"heatbath"} else {"metropolis"}, "L": c.l, "n_at_sweep_start": n0, "beta": c.beta, "bond": b, "w": w,
+                "table": {"vars": c.h.vars, "diag": c.h.diag}, "state": c.st0}));
+        }
+    }
+    fails
 }
 
 pub struct Probe {
@@ -290,6 +380,7 @@ pub fn run(args: &Args) -> serde_json::Value {
     }
     // probes
     let mut n_probes = 0;
+    let mut n_live_oracle = 0;
     for i in 0..n_probe_cfg {
         let hb = i % 2 == 1;
         let mut c = random_config(&mut rng, false, hb);
@@ -316,6 +407,22 @@ pub fn run(args: &Args) -> serde_json::Value {
             n_probes += 1;
         }
         oracle_failures.extend(balance_oracle(&c, &pr).into_iter().take(3));
+        // live-count oracle on the same configuration with a diagonal op placed in slot 0 and slot 1 freed
+        if c.l >= 2 {
+            if let Some(b0) = (0..c.h.nbonds()).find(|b| { let sub: Vec<bool> = c.h.vars[*b].iter().map(|v| c.st0[*v]).collect(); c.h.weight(*b, &sub, &sub) > 0.0 }) {
+                let ok1 = match &c.sl0[1] { None => true, Some(o) => o.is_diag() };
+                if ok1 {
+                    let sub: Vec<bool> = c.h.vars[b0].iter().map(|v| c.st0[*v]).collect();
+                    let mut c3 = Config { h: c.h.clone(), nvars: c.nvars, l: c.l, beta: c.beta, st0: c.st0.clone(), sl0: c.sl0.clone(), hb };
+                    c3.sl0[0] = Some(MOp { vars: c.h.vars[b0].clone(), bond: b0, ins: sub.clone(), outs: sub, constant: c.h.consts[b0] });
+                    c3.sl0[1] = None;
+                    if c3.sl0.iter().flatten().count() < c3.l {
+                        n_live_oracle += 1;
+                        oracle_failures.extend(live_count_oracle(&c3).into_iter().take(2));
+                    }
+                }
+            }
+        }
         // removal side probes as cases as well
         for b in 0..c.h.nbonds() {
             let sub: Vec<bool> = c.h.vars[b].iter().map(|v| c.st0[*v]).collect();
@@ -340,23 +447,31 @@ pub fn run(args: &Args) -> serde_json::Value {
     let files = crate::write_shards(&args.out, "C08", "C08", &coq, if args.thorough { 700 } else { 120 });
     json!({"files": files, "evaluations": coq.len(), "distinct_nontrivial": distinct.len() + n_probes,
         "sweeps": n_sweeps, "heatbath_sweeps": n_hb, "sweeps_with_offdiagonal_ops": n_offdiag_cases,
-        "threshold_probes": n_probes, "probes_in_clipped_regime": n_clipped, "raw_words_replayed": total_words,
+        "threshold_probes": n_probes, "live_count_oracle_configs": n_live_oracle, "probes_in_clipped_regime": n_clipped, "raw_words_replayed": total_words,
         "cutoff_histogram": hist_l, "oracle_failures": oracle_failures, "samples": samples,
         "rule": "random table Hamiltonians (1-5 vars, 1-6 bonds of arity 1-3, dyadic weights incl. zero), random valid operator strings with off-diagonal ops, cutoff 1..12 (40 thorough), beta in {1/8..4}; whole sweeps replayed on the raw RNG tape; per-decision thresholds bisected to the exact word; distinct = distinct (table, string, state, L, beta) + number of probes"})
 }
 
-pub fn debug(args: &Args) -> serde_json::Value {
-    let _ = std::panic::take_hook();
-    let mut rng = SplitMix64::new(args.seed ^ 0xC08);
-    for i in 0..200 {
-        let hb = i % 2 == 1;
-        let c = random_config(&mut rng, args.thorough, hb);
-        let mut trng = TapeRng::new(rng.next());
-        let res = run_update(&c, &mut trng);
-        if res.is_none() {
-            eprintln!("case {} hb={} L={} len={} nvars={} sl0={:?}", i, hb, c.l, c.sl0.len(), c.nvars, c.sl0);
-            break;
-        }
+pub fn debug(_args: &Args) -> serde_json::Value {
+    let h = TableHam { vars: vec![vec![0], vec![0]], consts: vec![false, false], diag: vec![vec![0.25, 0.25], vec![6.0, 6.0]], offw: 1.0 };
+    let op0 = MOp { vars: vec![0], bond: 0, ins: vec![false], outs: vec![false], constant: false };
+    let c = Config { h, nvars: 1, l: 2, beta: 2.0, st0: vec![false], sl0: vec![Some(op0.clone()), None], hb: true };
+    let two64 = 18446744073709551616.0f64;
+    let cw = choose_word(&c.h, 0).unwrap();
+    let t_ins = bisect(|v| matches!(slot_at(&c, vec![0, v, 0, cw], 1), Some(Some(_))));
+    let t_acc = bisect(|v| matches!(slot_at(&c, vec![0, 0, v, cw], 1), Some(Some(_))));
+    eprintln!("t_ins {} t_acc {} cw {}", t_ins as f64 / two64, t_acc as f64 / two64, cw);
+    let mut c2 = Config { h: c.h.clone(), nvars: 1, l: 2, beta: 2.0, st0: vec![false], sl0: vec![Some(op0.clone()), Some(op0.clone())], hb: true };
+    let t_rem = bisect(|v| matches!(slot_at(&c2, vec![0, v], 1), Some(None)));
+    eprintln!("t_rem {}", t_rem as f64 / two64);
+    c2.sl0[0] = None;
+    let t_rem1 = bisect(|v| matches!(slot_at(&c2, vec![v], 1), Some(None)));
+    eprintln!("t_rem single {}", t_rem1 as f64 / two64);
+    for v in [0u64, 1 << 60, 1 << 62, 1 << 63] {
+        let mut rng = TapeRng::scripted(vec![0, v], 7);
+        c2.sl0[0] = Some(op0.clone());
+        let r = run_update(&c2, &mut rng);
+        eprintln!("v={} -> {:?} log {:?}", v, r.map(|x| (x.0, x.2)), rng.log);
     }
     json!({})
 }
